@@ -52,7 +52,7 @@ static bool sync_decode(const std::vector<uint8_t> &bytes, Bulk &chunks, int chu
 }
 
 bool prop_run(Tape &t, Report &r) {
-  ChainOpts o; o.maxlinks = 4;
+  ChainOpts o; o.maxlinks = 4; o.gp_offset_pct = 8; o.vgen_pct = g_tape_gen >= 3 ? 25 : 0;
   Chain c; GT g; std::vector<LinkMeta> meta; std::string desc;
   if (!gen_chain(t, r, o, c, g, meta, desc)) return false;
   size_t k = c.links.size();
@@ -120,7 +120,13 @@ bool prop_run(Tape &t, Report &r) {
       if (i >= pl.size()) return r.fail("link %zu never delivered (%s) [%s]", i, pd.c_str(), desc.c_str());
       std::string w2;
       if (intread) {   // integer path: the expected words are the rounded, clipped floats of the packet-level decode
-        PCM want = g.pcm[i]; for (auto &chv : want) for (auto &x : chv) x = (float)expect_i16(x);
+        // a NaN sample (synthetic links can decode to one) has no defined 16-bit word: that position is not compared
+        PCM want = g.pcm[i];
+        for (size_t q = 0; q < want.size(); q++) for (size_t j = 0; j < want[q].size(); j++) {
+          float x = want[q][j];
+          if (x != x) { if (q < pl[i].size() && j < pl[i][q].size()) want[q][j] = pl[i][q][j]; else want[q][j] = 0; }
+          else want[q][j] = (float)expect_i16(x);
+        }
         if (!pcm_equal(pl[i], want, &w2)) return r.fail("link %zu (ov_read, 16-bit) differs from the converted packet-level decode: %s (%s) [%s]", i, w2.c_str(), pd.c_str(), desc.c_str());
         continue;
       }
